@@ -12,6 +12,7 @@ package control
 import (
 	"context"
 	"encoding/hex"
+	"errors"
 	"fmt"
 	"net"
 	"net/netip"
@@ -115,10 +116,12 @@ func c07RecsOfRRs(rrs []dnsmessage.RR) string {
 // fake upstream answer
 type c07Ans struct {
 	fail     bool
-	notResp  bool   // message without the response bit
-	servfail bool   // rcode SERVFAIL
-	qv       string // E echo, U upper-cased echo, N no question section, D a different name
-	recs     []c07Rec
+	notResp  bool     // message without the response bit
+	servfail bool     // rcode SERVFAIL
+	qv       string   // question section: E echo, U upper-cased echo, N none, D a different name, T another type, C class CH
+	recs     []c07Rec // ANSWER section
+	ns       []c07Rec // AUTHORITY section (never routed)
+	extra    []c07Rec // ADDITIONAL section (glue; never routed)
 }
 
 func (a c07Ans) tok() string {
@@ -134,52 +137,90 @@ func (a c07Ans) tok() string {
 	} else {
 		fl += "s"
 	}
-	return fl + "/" + a.qv + "/" + c07RecsTok(a.recs)
+	return fl + "/" + a.qv + "/" + c07RecsTok(a.recs) + "/" + c07RecsTok(a.ns) + "/" + c07RecsTok(a.extra)
 }
 
-// the behaviour table of the current `ask` and the trace the fake forwarders record
+// one level of the behaviour table: the EFFECTIVE answer of the upstream at that recursion level and,
+// for a tcp+udp upstream, whether the first (UDP) attempt fails so that the answer arrives through the
+// same-request TCP fallback of forwardWithFallback.
+type c07Level struct {
+	eff      c07Ans
+	udpFails bool
+}
+
+// the behaviour table of the current `ask` and what the fake forwarders record
 type c07Cur struct {
-	mu    sync.Mutex
-	table map[string]c07Ans // "<depth>.<up>"
-	trace []string
+	mu          sync.Mutex
+	table       map[string]c07Level // "<depth>.<up>"  (up = "a" for whatever as-is resolver)
+	trace       []string            // identity (bound at creation) of the forwarder that carried each level's query
+	expect      *dnsmessage.Question
+	fwdDiffers  bool // some forwarded query did not carry the client's question
+	fallbackUse int
 }
 
 var c07Current *c07Cur
 
-type c07Fwd struct{ up string }
+type c07Fwd struct {
+	up       string // u<k> | a<d> | ?...
+	fallback bool   // created for the TCP copy of a tcp+udp upstream
+}
 
 func (f *c07Fwd) Close() error { return nil }
 func (f *c07Fwd) ForwardDNS(ctx context.Context, data []byte) (*dnsmessage.Msg, error) {
 	cur := c07Current
-	cur.mu.Lock()
-	depth := len(cur.trace)
-	cur.trace = append(cur.trace, f.up)
-	a, ok := cur.table[fmt.Sprintf("%d.%s", depth, f.up)]
-	cur.mu.Unlock()
-	if !ok || a.fail {
-		return nil, fmt.Errorf("c07 fake upstream: forward failed")
-	}
 	var q dnsmessage.Msg
-	if err := q.Unpack(data); err != nil {
-		return nil, fmt.Errorf("c07 fake upstream: cannot unpack the query: %w", err)
+	uerr := q.Unpack(data)
+	cur.mu.Lock()
+	var depth int
+	if f.fallback {
+		depth = len(cur.trace) - 1 // second attempt of the same level
+		cur.fallbackUse++
+	} else {
+		depth = len(cur.trace)
+		cur.trace = append(cur.trace, f.up)
 	}
+	key := f.up
+	if strings.HasPrefix(key, "a") {
+		key = "a"
+	}
+	lv, ok := cur.table[fmt.Sprintf("%d.%s", depth, key)]
+	// the question sent upstream must be the client's (name bytes, type, class)
+	if uerr == nil {
+		switch {
+		case cur.expect == nil && len(q.Question) != 0:
+			cur.fwdDiffers = true
+		case cur.expect != nil && (len(q.Question) != 1 || q.Question[0] != *cur.expect):
+			cur.fwdDiffers = true
+		}
+	}
+	cur.mu.Unlock()
+	if uerr != nil {
+		return nil, fmt.Errorf("c07 fake upstream: cannot unpack the query: %w", uerr)
+	}
+	if !ok || lv.eff.fail || (lv.udpFails && !f.fallback) {
+		return nil, errC07Forward
+	}
+	a := lv.eff
 	m := new(dnsmessage.Msg)
 	m.SetReply(&q)
 	name := ""
 	if len(q.Question) > 0 {
 		name = q.Question[0].Name
 	}
-	switch a.qv {
-	case "U":
-		if len(m.Question) > 0 {
+	if len(m.Question) > 0 {
+		switch a.qv {
+		case "U":
 			m.Question[0].Name = strings.ToUpper(m.Question[0].Name)
-		}
-	case "N":
-		m.Question = nil
-	case "D":
-		if len(m.Question) > 0 {
+		case "D":
 			m.Question[0].Name = "evil.test."
+		case "T":
+			m.Question[0].Qtype++
+		case "C":
+			m.Question[0].Qclass = dnsmessage.ClassCHAOS
 		}
+	}
+	if a.qv == "N" {
+		m.Question = nil
 	}
 	if a.notResp {
 		m.Response = false
@@ -188,8 +229,12 @@ func (f *c07Fwd) ForwardDNS(ctx context.Context, data []byte) (*dnsmessage.Msg, 
 		m.Rcode = dnsmessage.RcodeServerFailure
 	}
 	m.Answer = c07RRs(name, a.recs)
+	m.Ns = c07RRs(name, a.ns)
+	m.Extra = c07RRs(name, a.extra)
 	return m, nil
 }
+
+var errC07Forward = fmt.Errorf("c07 fake upstream: forward failed")
 
 // The upstreams of the current configuration: URL text, the *Upstream the real code derives from
 // it (for cache keys) and the identity token u<k>.  Several upstreams may share scheme, address and
@@ -201,17 +246,19 @@ type c07UpDef struct {
 
 var c07Ups []c07UpDef
 
-// identity of a forwarder, BOUND AT CREATION (dnsForwarderFactory) from upstream.String()
-func c07Ident(upstreamString string) string {
+// identity of a forwarder, BOUND AT CREATION (dnsForwarderFactory) from upstream.String().
+// The as-is resolver is the client's own destination 9.9.9.<d>: identity a<d>.  The TCP copy that
+// forwardWithFallback's second attempt at a tcp+udp upstream is recognised in the factory by its TCP dial argument.
+func c07Ident(upstreamString string) (string, bool) {
 	for k, d := range c07Ups {
 		if d.up.String() == upstreamString {
-			return fmt.Sprintf("u%d", k)
+			return fmt.Sprintf("u%d", k), false
 		}
 	}
 	if strings.HasPrefix(upstreamString, "udp://9.9.9.") {
-		return "a" // the as-is resolver (the client's own destination)
+		return "a" + strings.TrimSuffix(strings.TrimPrefix(upstreamString, "udp://9.9.9."), ":53"), false
 	}
-	return "?" + upstreamString
+	return "?" + upstreamString, false
 }
 
 var c07HostIPs = map[string]string{}
@@ -249,7 +296,7 @@ func c07GenUpstreams(r *VRand, nUp int, stats *VStats) []string {
 			}
 			continue
 		}
-		scheme := []string{"udp", "udp", "https", "https", "tls", "h3", "quic", "tcp"}[r.Intn(8)]
+		scheme := []string{"udp", "tcp+udp", "https", "https", "tls", "h3", "quic", "tcp", "tcp+udp", "udp"}[r.Intn(10)]
 		ip := fmt.Sprintf("192.0.2.%d", len(groups)+1)
 		groups = append(groups, group{scheme, ip, 1})
 		if (scheme == "https" || scheme == "h3") && r.Bool() {
@@ -286,9 +333,15 @@ func c07MakeUpDefs(urls []string) ([]c07UpDef, error) {
 	return defs, nil
 }
 
+// DIAGNOSTIC classification of an error (printed after " | ", never a violation by itself: the
+// property does not speak about error texts).  Sentinels where the code has them, substrings otherwise.
 func c07ErrClass(err error) string {
 	s := err.Error()
 	switch {
+	case errors.Is(err, ErrDNSResponseQuestionMismatch):
+		return "questionmismatch"
+	case errors.Is(err, errC07Forward):
+		return "forwardfail"
 	case strings.Contains(s, "too deep DNS lookup"):
 		return "toodeep"
 	case strings.Contains(s, "DNS request expected"):
@@ -299,23 +352,28 @@ func c07ErrClass(err error) string {
 		return "badupstream"
 	case strings.Contains(s, "qName cannot be empty"), strings.Contains(s, "no match set hit"):
 		return "routefail"
-	case strings.Contains(s, "c07 fake upstream: forward failed"):
-		return "forwardfail"
-	case strings.Contains(s, "does not answer the question asked"):
-		return "questionmismatch"
 	}
-	return "other:" + s
+	return "other"
 }
 
-// "a.com.1|upstream@udp://10.0.0.2:53" → "a.com./1/u1"
+// "a.com.1|upstream@udp://10.0.0.2:53" → "a.com./1/u1" (the name may itself contain `|`)
 func c07KeyTok(key string) string {
-	base, scope, _ := strings.Cut(key, "|")
+	cut := -1
+	for _, sep := range []string{"|upstream@", "|asis@"} {
+		if i := strings.LastIndex(key, sep); i > cut {
+			cut = i
+		}
+	}
+	if cut < 0 {
+		return "?" + key
+	}
+	base, scope := key[:cut], key[cut+1:]
 	i := strings.LastIndexByte(base, '.')
 	name, qt := base[:i+1], base[i+1:]
 	sc := "?" + scope
 	switch {
 	case strings.HasPrefix(scope, "upstream@"):
-		sc = c07Ident(strings.TrimPrefix(scope, "upstream@"))
+		sc, _ = c07Ident(strings.TrimPrefix(scope, "upstream@"))
 	case strings.HasPrefix(scope, "asis@9.9.9."):
 		sc = "a" + strings.TrimSuffix(strings.TrimPrefix(scope, "asis@9.9.9."), ":53")
 	}
@@ -348,7 +406,11 @@ func c07NewController(t *testing.T, routing *componentdns.Dns) *DnsController {
 			if !ip.IsValid() {
 				ip = upstream.Ip6
 			}
-			return &dialArgument{l4proto: consts.L4ProtoStr_UDP, ipversion: consts.IpVersionStr_4, bestTarget: netip.AddrPortFrom(ip, upstream.Port)}, nil
+			l4 := consts.L4ProtoStr_UDP
+			if upstream.Scheme == componentdns.UpstreamScheme_TCP {
+				l4 = consts.L4ProtoStr_TCP // also the TCP copy forwardWithFallback makes of a tcp+udp upstream
+			}
+			return &dialArgument{l4proto: l4, ipversion: consts.IpVersionStr_4, bestTarget: netip.AddrPortFrom(ip, upstream.Port)}, nil
 		},
 	})
 	if err != nil {
@@ -379,6 +441,22 @@ func c07BouncyResp(r *VRand, nUp int, stats *VStats) []c07Rule {
 	return rules
 }
 
+func c07GenRecs(r *VRand, stats *VStats) []c07Rec {
+	var recs []c07Rec
+	for _, ip := range c07Ips(r, stats) {
+		if ip.Is4() {
+			recs = append(recs, c07Rec{"A", ip})
+		} else {
+			recs = append(recs, c07Rec{"AAAA", ip})
+		}
+	}
+	if r.Chance(0.3) {
+		i := r.Intn(len(recs) + 1)
+		recs = append(recs[:i], append([]c07Rec{{kind: "O"}}, recs[i:]...)...)
+	}
+	return recs
+}
+
 func c07GenAns(r *VRand, stats *VStats) c07Ans {
 	var a c07Ans
 	if r.Chance(0.08) {
@@ -386,26 +464,29 @@ func c07GenAns(r *VRand, stats *VStats) c07Ans {
 		return a
 	}
 	a.qv = "E"
-	switch r.Intn(20) {
+	switch r.Intn(24) {
 	case 0, 1:
 		a.qv = "U"
 	case 2:
 		a.qv = "N"
 	case 3:
 		a.qv = "D"
+	case 4:
+		a.qv = "T"
+	case 5:
+		a.qv = "C"
 	}
 	a.notResp = r.Chance(0.03)
 	a.servfail = r.Chance(0.08)
-	for _, ip := range c07Ips(r, stats) {
-		if ip.Is4() {
-			a.recs = append(a.recs, c07Rec{"A", ip})
-		} else {
-			a.recs = append(a.recs, c07Rec{"AAAA", ip})
-		}
-	}
+	a.recs = c07GenRecs(r, stats)
+	// glue / authority records: addresses a response rule must NOT see
 	if r.Chance(0.3) {
-		i := r.Intn(len(a.recs) + 1)
-		a.recs = append(a.recs[:i], append([]c07Rec{{kind: "O"}}, a.recs[i:]...)...)
+		a.extra = c07GenRecs(r, stats)
+		stats.Inc("answer.additional-section-filled")
+	}
+	if r.Chance(0.15) {
+		a.ns = c07GenRecs(r, stats)
+		stats.Inc("answer.authority-section-filled")
 	}
 	return a
 }
@@ -420,7 +501,9 @@ func TestVerifC07Controller(t *testing.T) {
 	defer func() { dnsForwarderFactory = originalFactory }()
 	dnsForwarderFactory = func(upstream *componentdns.Upstream, dialArg dialArgument, _ *logrus.Logger) (DnsForwarder, error) {
 		stats.Inc("forwarder.created")
-		return &c07Fwd{up: c07Ident(upstream.String())}, nil // identity bound NOW, not when called
+		id, _ := c07Ident(upstream.String())
+		fb := upstream.Scheme == componentdns.UpstreamScheme_TCP_UDP && dialArg.l4proto == consts.L4ProtoStr_TCP
+		return &c07Fwd{up: id, fallback: fb}, nil // identity bound NOW, not when called
 	}
 
 	nCfg, perCfg, maxRules := 300, 12, 5
@@ -428,6 +511,8 @@ func TestVerifC07Controller(t *testing.T) {
 		nCfg, perCfg, maxRules = 4000, 16, 8
 	}
 	nCfg = VEnvInt("C07_NCFG_CTL", nCfg)
+	// the re-ask limit of the code under test (the model takes it from here, not from a literal)
+	st.Emit(fmt.Sprintf("depth %d", MaxDnsLookupDepth), "ok")
 	for ci := 0; ci < nCfg; ci++ {
 		nUp := []int{0, 1, 2, 2, 3, 3, 4}[r.Intn(7)]
 		reqRules := c07GenRules(r, nUp, false, maxRules, stats)
@@ -463,11 +548,7 @@ func TestVerifC07Controller(t *testing.T) {
 			UpstreamHostResolver:    c07ResolveHost,
 		})
 		if err != nil {
-			if strings.Contains(err.Error(), "too many routing rules") {
-				stats.Inc("cfg.skipped-over-size-limit")
-			} else {
-				st.Emit(cfgOp, "builderr")
-			}
+			st.Emit(cfgOp, "builderr")
 			continue
 		}
 		st.Emit(cfgOp, "ok")
@@ -475,12 +556,17 @@ func TestVerifC07Controller(t *testing.T) {
 		if ci < 2 {
 			stats.Sample(cfgOp)
 		}
-		// ONE controller per scenario: its forwarder cache lives across the asks, so which cached
-		// forwarder carries a query depends on the forwarder cache key.  The response cache is
-		// emptied between asks (each ask line is self-contained for the model).
+		// ONE controller per scenario: its forwarder cache AND its response cache live across the asks
+		// (the model threads the cache through the scenario), so which cached forwarder carries a query
+		// depends on the forwarder cache key, and what an ask stored is what a later ask is served.
 		ctrl := c07NewController(t, routing)
 
 		names := c07Names(r, reqRules, perCfg, stats)
+		type asked struct {
+			name string
+			qt   uint16
+		}
+		var earlier []asked
 		for ai := 0; ai < perCfg; ai++ {
 			// names as they come off the wire: fully qualified, any case
 			name := strings.TrimRight(names[ai], ".") + "."
@@ -488,23 +574,46 @@ func TestVerifC07Controller(t *testing.T) {
 				name = c07RandCase(r, c07Domain(r)) + "."
 			}
 			qt := c07Qtype(r, reqRules)
+			if len(earlier) > 0 && r.Chance(0.35) {
+				// ask an earlier question of the scenario again (store → hit round trips)
+				e := earlier[r.Intn(len(earlier))]
+				name, qt = e.name, e.qt
+				if r.Chance(0.3) {
+					name = c07RandCase(r, strings.ToLower(name))
+				}
+				stats.Inc("ask.repeats-earlier-question")
+			}
+			earlier = append(earlier, asked{name, qt})
 			dst := r.Range(1, 2)
 			isResp := r.Chance(0.03)
 			noq := r.Chance(0.04)
 			if noq {
 				name, qt = "", 0 // what the controller uses for a message without question
+			} else {
+				// the name as it comes OFF THE WIRE: miekg's presentation form after Pack/Unpack (`@` arrives as `\@`)
+				probe := new(dnsmessage.Msg)
+				probe.Question = []dnsmessage.Question{{Name: name, Qtype: qt, Qclass: dnsmessage.ClassINET}}
+				var wire dnsmessage.Msg
+				if b, err := probe.Pack(); err != nil || wire.Unpack(b) != nil || len(wire.Question) != 1 {
+					name = "pack-failed.test."
+				} else {
+					name = wire.Question[0].Name
+				}
 			}
+			_, ipErr := netip.ParseAddr(strings.TrimSuffix(name, "."))
+			isIP := ipErr == nil && !noq
 
 			// upstream behaviour table
-			cur := &c07Cur{table: map[string]c07Ans{}}
+			cur := &c07Cur{table: map[string]c07Level{}}
 			ups := []string{"a"}
 			for k := 0; k < nUp; k++ {
 				ups = append(ups, fmt.Sprintf("u%d", k))
 			}
 			var ansToks []string
-			for _, up := range ups {
+			for ui, up := range ups {
 				base := c07GenAns(r, stats)
-				for d := 0; d <= 3; d++ {
+				tcpudp := ui > 0 && c07Ups[ui-1].up.Scheme == componentdns.UpstreamScheme_TCP_UDP
+				for d := 0; d <= MaxDnsLookupDepth; d++ {
 					a := base
 					if r.Chance(0.15) {
 						a = c07GenAns(r, stats)
@@ -512,7 +621,12 @@ func TestVerifC07Controller(t *testing.T) {
 					if r.Chance(0.03) {
 						continue // no entry: the upstream does not answer
 					}
-					cur.table[fmt.Sprintf("%d.%s", d, up)] = a
+					lv := c07Level{eff: a}
+					if tcpudp && r.Chance(0.5) {
+						lv.udpFails = true // the answer arrives through the TCP fallback of the same level
+						stats.Inc("answer.tcp+udp-first-attempt-fails")
+					}
+					cur.table[fmt.Sprintf("%d.%s", d, up)] = lv
 					ansToks = append(ansToks, fmt.Sprintf("%d.%s=%s", d, up, a.tok()))
 				}
 			}
@@ -521,7 +635,7 @@ func TestVerifC07Controller(t *testing.T) {
 
 			// seed the response cache through the production insert path
 			var seedToks []string
-			if r.Chance(0.45) {
+			if r.Chance(0.4) && !isIP { // (an IP-literal name is never stored: not seedable)
 				ns := r.Range(1, 3)
 				for i := 0; i < ns; i++ {
 					sel := []string{"s", "s", "s", "s", "o", "t"}[r.Intn(6)]
@@ -558,6 +672,7 @@ func TestVerifC07Controller(t *testing.T) {
 			msg.RecursionDesired = true
 			if !noq {
 				msg.Question = []dnsmessage.Question{{Name: name, Qtype: qt, Qclass: dnsmessage.ClassINET}}
+				cur.expect = &dnsmessage.Question{Name: name, Qtype: qt, Qclass: dnsmessage.ClassINET}
 			} else {
 				stats.Inc("ask.no-question")
 			}
@@ -575,8 +690,8 @@ func TestVerifC07Controller(t *testing.T) {
 			if noq {
 				hq = "noq"
 			}
-			op := fmt.Sprintf("ask %d %s %s n:%s %d %s seed:%s ans:%s", dst, c07B(isResp), hq, name, qt, c07Rx(name),
-				strings.Join(seedToks, ","), strings.Join(ansToks, ","))
+			op := fmt.Sprintf("ask %d %s %s n:%s %d %s ip:%s seed:%s ans:%s", dst, c07B(isResp), hq, name, qt, c07Rx(name),
+				c07B(isIP), strings.Join(seedToks, ","), strings.Join(ansToks, ","))
 			out := VRecover(func() string {
 				ctx, cancel := context.WithTimeout(context.Background(), 5*time.Second)
 				defer cancel()
@@ -584,12 +699,17 @@ func TestVerifC07Controller(t *testing.T) {
 				cur.mu.Lock()
 				trace := strings.Join(cur.trace, ",")
 				stats.Inc(fmt.Sprintf("ask.upstream-queries.%d", len(cur.trace)))
+				if cur.fallbackUse > 0 {
+					stats.Inc("ask.tcp-fallback-used")
+				}
+				differs := cur.fwdDiffers
 				cur.mu.Unlock()
-				reply := ""
+				reply, errc := "", "-"
 				switch {
 				case err != nil:
-					reply = "err:" + c07ErrClass(err)
-					stats.Inc("ask.reply." + reply)
+					reply = "err"
+					errc = c07ErrClass(err)
+					stats.Inc("ask.reply.err:" + errc)
 				case w.msg == nil:
 					reply = "none"
 				default:
@@ -607,18 +727,16 @@ func TestVerifC07Controller(t *testing.T) {
 						stats.Inc("ask.reply.answers")
 					}
 				}
-				return fmt.Sprintf("trace=%s reply=%s cache=%s", trace, reply, c07DumpCache(ctrl))
+				if differs {
+					reply += " forwarded-question-differs"
+				}
+				// after " | ": diagnostics (cache contents, error class) — compared, but not a violation
+				return fmt.Sprintf("trace=%s reply=%s | cache=%s err=%s", trace, reply, c07DumpCache(ctrl), errc)
 			})
 			st.Emit(op, out)
 			stats.Inc("op.ask")
 			if ci < 2 && ai < 2 {
 				stats.Sample(op)
-			}
-			// empty the response cache for the next ask (forwarders stay cached)
-			var keys []string
-			ctrl.dnsCache.Range(func(k, _ any) bool { keys = append(keys, k.(string)); return true })
-			for _, k := range keys {
-				ctrl.RemoveDnsRespCache(k)
 			}
 		}
 		_ = ctrl.Close()
